@@ -236,6 +236,7 @@ pub async fn download_config(
 
 /// 按 key 导出配置
 pub async fn download_config_by_keys(
+    req: HttpRequest,
     request: web::Json<Vec<ConfigParams>>,
     config_addr: web::Data<Addr<ConfigActor>>,
 ) -> impl Responder {
@@ -244,7 +245,7 @@ pub async fn download_config_by_keys(
         return HttpResponse::BadRequest().body("keys cannot be empty");
     }
 
-    let keys = params
+    let keys: Vec<ConfigKey> = params
         .into_iter()
         .map(|k| {
             let k = k.to_key();
@@ -254,6 +255,16 @@ pub async fn download_config_by_keys(
             }
         })
         .collect();
+    //每个key自带命名空间,逐个校验当前用户的命名空间权限
+    let namespace_privilege = user_namespace_privilege!(req);
+    for key in &keys {
+        if !namespace_privilege.check_permission(&key.tenant) {
+            return HttpResponse::Unauthorized().body(format!(
+                "user no such namespace permission: {}",
+                key.tenant.as_str()
+            ));
+        }
+    }
 
     let cmd = ConfigCmd::QueryInfoByKeys(Box::new(keys));
     match config_addr.send(cmd).await {
